@@ -254,6 +254,9 @@ func exactCase(c *Ctx, r *Rng, no int, pattern string) {
 		if qi == 0 {
 			k = n
 		}
+		if qi == 1 && n <= ef { // the single nearest item, with the beam covering the collection
+			k = 1
+		}
 		// brute force with the same metric
 		row := make([]float32, n)
 		bad := false
